@@ -338,6 +338,7 @@ pub fn property() -> Property {
                 name: "random-inputs",
                 rule: "random PDU/total length/protocol type/label",
                 cases: (1_200_000, 3_000_000),
+                fuzz_decode: None,
                 strategy: rand_strategy,
                 check: check_rand,
                 required_classes: &["label0", "label3", "label6", "pdu>4095", "pdu-empty"],
@@ -346,6 +347,7 @@ pub fn property() -> Property {
                 name: "end-to-end",
                 rule: "fragmented transfer, trailer and calculator arguments",
                 cases: (160_000, 400_000),
+                fuzz_decode: None,
                 strategy: e2e_strategy,
                 check: check_e2e,
                 required_classes: &["fragmented", "first-fragment-substituted", "first-fragment-full-label"],
